@@ -1125,19 +1125,24 @@ func c04DirRewrite(w *World, r *Report) {
 		r.Fail("C04-e", fnName(rm), "parent directory rewritten in all of its blocks", w.relFile(rm.Pos()), "Remove neither calls writeDirectory nor writes the re-serialised parent directory to the device: the removed name stays listed")
 		return
 	}
+	bad, why := loopWritesEveryBlock(rm, writes[0])
+	r.Check(!bad, "C04-e", fnName(rm), "parent directory rewritten in all of its blocks", w.relFile(writes[0].Pos()), "every iteration of the block loop writes its block",
+		why+"an iteration of the loop over the parent directory's blocks can end (or the loop can be left) without writing the block: blocks beyond the shorter listing keep their old entries, which are listed again")
+}
+
+// loopWritesEveryBlock: wr is a device write inside a loop over an object's blocks. From the body of the innermost
+// such loop, the loop cannot be left, nor its next iteration started, without passing a device write - other than by
+// an error return. Returns bad=true (and a reason prefix) otherwise.
+func loopWritesEveryBlock(fn *ssa.Function, wr ssa.CallInstruction) (bool, string) {
 	anyWrite := map[*ssa.BasicBlock]bool{}
-	for _, c := range calls(rm, false, isWriteAt) {
+	for _, c := range calls(fn, false, isWriteAt) {
 		anyWrite[c.Block()] = true
 	}
-	// innermost loop around the first such write: smallest set of blocks that are on a cycle through the write's block
-	wb := writes[0].Block()
+	wb := wr.Block()
 	loop := cycleThrough(wb)
 	if len(loop) == 0 {
-		r.Fail("C04-e", fnName(rm), "parent directory rewritten in all of its blocks", w.relFile(writes[0].Pos()), "the directory block write is not in a loop over the directory's blocks")
-		return
+		return true, "the block write is not in a loop over the blocks; "
 	}
-	// the loop header: the block of the loop with a predecessor outside it, innermost = among cycles through wb choose
-	// the header that dominates wb and is closest
 	var header *ssa.BasicBlock
 	for b := range loop {
 		for _, p := range b.Preds {
@@ -1148,8 +1153,6 @@ func c04DirRewrite(w *World, r *Report) {
 			}
 		}
 	}
-	// innermost: shrink to the cycle through wb that avoids outer headers: take blocks dominated by the nearest
-	// header that is itself in a cycle with wb
 	inner := loop
 	for b := range loop {
 		if b != header && b.Dominates(wb) {
@@ -1168,18 +1171,15 @@ func c04DirRewrite(w *World, r *Report) {
 		}
 	}
 	if header == nil {
-		r.Fail("C04-e", fnName(rm), "parent directory rewritten in all of its blocks", w.relFile(writes[0].Pos()), "cannot identify the loop over the directory's blocks")
-		return
+		return true, "cannot identify the loop over the blocks; "
 	}
-	// body entry: the successor of the header inside the loop
-	var bad *ssa.BasicBlock
 	for _, s := range header.Succs {
 		if !inner[s] {
 			continue
 		}
 		seen := map[*ssa.BasicBlock]bool{}
 		stack := []*ssa.BasicBlock{s}
-		for len(stack) > 0 && bad == nil {
+		for len(stack) > 0 {
 			b := stack[len(stack)-1]
 			stack = stack[:len(stack)-1]
 			if seen[b] || anyWrite[b] {
@@ -1187,8 +1187,7 @@ func c04DirRewrite(w *World, r *Report) {
 			}
 			seen[b] = true
 			if b == header {
-				bad = b // next iteration without a write
-				break
+				return true, ""
 			}
 			if !inner[b] {
 				if ret, ok := lastInstr(b).(*ssa.Return); ok && classifyReturn(ret) == RetError {
@@ -1197,14 +1196,12 @@ func c04DirRewrite(w *World, r *Report) {
 				if blockLeadsToErrorReturn(b, 0) {
 					continue
 				}
-				bad = b
-				break
+				return true, ""
 			}
 			stack = append(stack, b.Succs...)
 		}
 	}
-	r.Check(bad == nil, "C04-e", fnName(rm), "parent directory rewritten in all of its blocks", w.relFile(writes[0].Pos()), "every iteration of the block loop writes its block",
-		"an iteration of the loop over the parent directory's blocks can end (or the loop can be left) without writing the block: blocks beyond the shorter listing keep their old entries, which are listed again")
+	return false, ""
 }
 
 // cycleThrough: blocks on some cycle through b (reachable from b and reaching b).
